@@ -184,13 +184,20 @@ def run_gauss(c, rec):
     try:
         if c["sparse_switch"] == "above":
             cuqi.config.MIN_DIM_SPARSE = 1
-        kw = {c["param"]: c04.gauss_arg(c)}
+        arg = c04.gauss_arg(c)
+        arg0 = arg.toarray().copy() if hasattr(arg, "toarray") else np.array(arg, dtype=float, copy=True)
+        kw = {c["param"]: arg}
         if c["mean_kind"] != "vector":
             kw["geometry"] = n
         refused, d = refuses(lambda: cuqi.distribution.Gaussian(mean, **kw))
         if refused:
             raise Violation(f"constructing Gaussian({c['param']}=<{c['structure']}>) failed: {type(d).__name__}: {d}")
             return
+        # a first draw; afterwards the array the caller passed must still hold the caller's numbers
+        refuses(lambda: d.sample(1, rng=np.random.RandomState(3)))
+        argn = arg.toarray() if hasattr(arg, "toarray") else np.asarray(arg, dtype=float)
+        require(maxdiff(argn, arg0) == 0, f"drawing from Gaussian({c['param']}=...) altered the array that was passed in",
+                structure=c["structure"], layout=c.get("layout"), sqrt_kind=c.get("sqrt_kind"))
         tol = 1e-8 if c["sparse_switch"] == "below" else 1e-6
         # the un-normalised log-density may be unavailable (sparse without cholmod): use differences of _logupdf-free logd
         refused, _ = refuses(lambda: d.logd(np.zeros(n)))
